@@ -8,12 +8,18 @@ name, src, demodir, checks = sys.argv[1], sys.argv[2], sys.argv[3], sys.argv[4].
 dst = "/verif/seeded/" + name
 os.makedirs(dst, exist_ok=True)
 for f in ("patch.diff", "demo_test.go", "meta.json"):
-    if os.path.exists(os.path.join(src, f)):
+    if os.path.exists(os.path.join(src, f)) and os.path.abspath(src) != os.path.abspath(dst):
         shutil.copy(os.path.join(src, f), os.path.join(dst, f if f != "meta.json" else "agent_meta.json"))
 env = dict(os.environ, GOFLAGS="-mod=mod", GOPROXY="off", GOSUMDB="off", GOTOOLCHAIN="local")
+# the change is applied in a scratch worktree of /repo's HEAD (removed afterwards), never in /repo itself, so that
+# long-running checks of the unchanged tree are not disturbed; the checks are pointed at it with VERIF_REPO
+SCRATCH = "/tmp/wt/seedrepo-%d" % os.getpid()
+subprocess.run("git -C /repo worktree add --detach %s HEAD -q" % SCRATCH, shell=True, check=True)
+env["VERIF_REPO"] = SCRATCH
 
 
-def sh(cmd, cwd="/repo", timeout=3600):
+def sh(cmd, cwd=None, timeout=3600):
+    cwd = cwd or SCRATCH
     p = subprocess.run(cmd, shell=True, cwd=cwd, env=env, capture_output=True, text=True, timeout=timeout)
     return p.returncode, (p.stdout + p.stderr)
 
@@ -23,8 +29,7 @@ def clean():
 
 
 res = {"ran": []}
-assert sh("git status --porcelain")[1].strip() == "", "/repo not clean"
-demo_dst = os.path.join("/repo", demodir, "zz_seeded_demo_test.go")
+demo_dst = os.path.join(SCRATCH, demodir, "zz_seeded_demo_test.go")
 try:
     # demo on the unchanged tree
     shutil.copy(os.path.join(dst, "demo_test.go"), demo_dst)
@@ -60,10 +65,9 @@ finally:
         open(ep, "w").write(txt)
     for f in __import__("glob").glob("/verif/replay/C*-*.json"):
         os.remove(f)
-    if os.path.exists(demo_dst):
-        os.remove(demo_dst)
-    clean()
-res["repo_clean_after"] = sh("git status --porcelain")[1].strip() == ""
+    subprocess.run("git -C /repo worktree remove --force %s" % SCRATCH, shell=True)
+res["repo_clean_after"] = subprocess.run("git -C /repo status --porcelain", shell=True, capture_output=True, text=True).stdout.strip() == ""
+res["applied_in"] = "scratch worktree of /repo HEAD (VERIF_REPO), removed afterwards"
 res["detected_by"] = [c for c, r in res.get("checks", {}).items() if r["exit"] == 1]
 am = {}
 try:
